@@ -971,6 +971,12 @@ def compare(I, op, l, r, node):
     if opn in ('In', 'NotIn'):
         res = None
         cont = r
+        if type(r).__name__ == 'ASet' and getattr(r, 'unknown', False):
+            # a set that also holds unknown values: a known member is a member, anything else is undecided
+            I.emit('membership', node, {'left': l, 'right': r, 'op': opn})
+            if lc and cl in r.items:
+                return opn == 'In'
+            return Unk('cond', kinds=['bool'], taint=tj(l) | getattr(r, 'taint', frozenset()), src=('cond', lambda t: None))
         if type(r).__name__ == 'ASet':
             r = frozenset(r.items)
             cr, rc = r, True
